@@ -144,6 +144,10 @@ class ByteBuf {
   FP_BYTEBUF_SCALAR(f64, double)
 #undef FP_BYTEBUF_SCALAR
 
+  // `char` scalar of the DSL (the generator prints write_char / read_char for it): one byte.
+  void write_char(char c) { write_be<char>(c); }
+  char read_char() { return read_be<char>(); }
+
  private:
   template <typename T>
   static void store(std::uint8_t* dst, T v, bool le) {
